@@ -31,7 +31,7 @@ def observe(argv, cwd, timeout):
         err = (ex.stderr or b"").decode("utf-8", "replace")
         status, timed_out = -1, True
     tb = TB_MARK in err
-    exc, where = "", ""
+    exc, where, stack = "", "", []
     if tb:
         lines = [l for l in err.strip().splitlines() if l.strip()]
         m = re.match(r"([A-Za-z_][\w.]*)(:|$)", lines[-1]) if lines else None
@@ -40,8 +40,9 @@ def observe(argv, cwd, timeout):
         repo = [f for f in frames if "/isla" in f[0] and "site-packages" not in f[0]]
         if repo:
             where = "%s:%s" % (os.path.basename(repo[-1][0]), repo[-1][1])
+            stack = ["%s:%s" % (os.path.basename(f), fn) for f, fn in repo][-12:]
     return {"status": status, "out_empty": out.strip() == "", "err_empty": err.strip() == "", "tb": tb, "timeout": timed_out,
-            "exc": exc, "where": where, "stdout": out, "stdout_head": out[:400], "stderr_tail": err[-700:]}
+            "exc": exc, "where": where, "frames": stack, "stdout": out, "stdout_head": out[:400], "stderr_tail": err[-700:]}
 
 
 def strip_obs(o):
